@@ -28,8 +28,8 @@ type Conn struct {
 	C       net.Conn
 	raw     *bufio.Reader // bytes as they arrive
 	dec     *bufio.Reader // plaintext of the frames read from raw (nil until Upgrade)
-	Sess    *Session // write side: nil = plaintext
-	decSess *Session // the session dec is bound to
+	Sess    *Session      // write side: nil = plaintext
+	decSess *Session      // the session dec is bound to
 	Events  []*Msg
 	Timeout time.Duration
 }
